@@ -116,3 +116,8 @@ func init() {
 	register("C06", &CheckSpec{Level: "fault_enumeration", Assumptions: append([]string{"damage below the highest complete chunk is not detectable by design and is not demanded (the property promises the last recorded chunk only)"}, xferAssumptions...),
 		Parts: []*PartSpec{{Name: "sidecar", Harness: "c06a", Shards: 8}, c06b}})
 }
+
+func init() {
+	register("C15", &CheckSpec{Level: "fault_enumeration", Assumptions: append([]string{"decoder-level inputs are single mutations (truncation, one byte, one 16/32-bit window) of valid encodings; protocol-level inputs are record sequences up to length 3-4 over a fixed alphabet", "memory is judged by TotalAlloc growth during the call (limit 1 MiB + 64 x input bytes)"}, xferAssumptions...),
+		Parts: []*PartSpec{{Name: "decoder", Harness: "c15a", Shards: 4, Timeout: 20 * time.Minute}, xferPart("protocol", "c15", 16)}})
+}
